@@ -25,23 +25,305 @@ Definition tbl_ok (t : table) : Prop := tbl_shape t /\ tbl_clean t /\ tbl_zs t.
 Definition cell (t : table) (ci r : nat) : Z := nth r (nth ci (t_cols t) []) 0%Z.
 Definition row_ent (t : table) (r : nat) : ent := nth r (t_ents t) zero_ent.
 
+
+(** ** List library *)
+From Coq Require Import Lia Permutation.
+
+Ltac bdestr :=
+  repeat match goal with
+  | |- context [Nat.eqb ?a ?b] => destruct (Nat.eqb_spec a b)
+  | |- context [Nat.leb ?a ?b] => destruct (Nat.leb_spec a b)
+  | |- context [Nat.ltb ?a ?b] => destruct (Nat.ltb_spec a b)
+  end; simpl.
+
+Lemma upd_length : forall A i (x : A) l, length (upd i x l) = length l.
+Proof. intros A i x l; revert i; induction l; intros [|i]; simpl; auto. Qed.
+
+Lemma nth_upd : forall A (l : list A) i j (x d : A),
+  nth j (upd i x l) d = if (i =? j) && (i <? length l) then x else nth j l d.
+Proof.
+  induction l; intros i j x d.
+  - simpl. rewrite Bool.andb_false_r. destruct i, j; reflexivity.
+  - destruct i, j; simpl; auto.
+    rewrite IHl. reflexivity.
+Qed.
+
+Lemma nth_upd_eq : forall A (l : list A) i (x d : A), i < length l -> nth i (upd i x l) d = x.
+Proof. intros. rewrite nth_upd. bdestr; try lia; auto. Qed.
+
+Lemma nth_upd_neq : forall A (l : list A) i j (x d : A), i <> j -> nth j (upd i x l) d = nth j l d.
+Proof. intros. rewrite nth_upd. bdestr; try lia; auto. Qed.
+
+Lemma nth_error_upd : forall A (l : list A) i j (x : A),
+  nth_error (upd i x l) j =
+  if i =? j then match nth_error l j with Some _ => Some x | None => None end else nth_error l j.
+Proof.
+  induction l; intros i j x.
+  - destruct i, j; simpl; try reflexivity; destruct (_ =? _); reflexivity.
+  - destruct i, j; simpl; auto.
+Qed.
+
+Lemma updf_length : forall A i (f : A -> A) l, length (updf i f l) = length l.
+Proof. intros. unfold updf. destruct (nth_error l i); auto using upd_length. Qed.
+
+Lemma nth_error_updf : forall A (l : list A) i j (f : A -> A),
+  nth_error (updf i f l) j = if i =? j then option_map f (nth_error l j) else nth_error l j.
+Proof.
+  intros. unfold updf. destruct (nth_error l i) eqn:E.
+  - rewrite nth_error_upd. bdestr; auto. subst. rewrite E. reflexivity.
+  - bdestr; auto. subst. rewrite E. reflexivity.
+Qed.
+
+Lemma nth_firstn' : forall A (l : list A) n r (d : A), r < n -> nth r (firstn n l) d = nth r l d.
+Proof.
+  induction l; intros n r d H; destruct n, r; simpl; auto; try lia.
+  apply IHl. lia.
+Qed.
+
+Lemma resize_length : forall A c n (d : A) l, n <= length l -> n <= c -> length (resize c n d l) = c.
+Proof.
+  intros. unfold resize. rewrite app_length, firstn_length_le, repeat_length by assumption. lia.
+Qed.
+
+Lemma nth_resize : forall A c n (d : A) l r, n <= length l ->
+  nth r (resize c n d l) d = if r <? n then nth r l d else d.
+Proof.
+  intros. unfold resize. bdestr.
+  - rewrite app_nth1 by (rewrite firstn_length_le; lia). apply nth_firstn'. assumption.
+  - rewrite app_nth2 by (rewrite firstn_length_le; lia). apply nth_repeat.
+Qed.
+
+Lemma copy_into_length : forall A (src dst : list A) off, length (copy_into dst off src) = length dst.
+Proof.
+  induction src; intros; simpl; auto. rewrite IHsrc. apply upd_length.
+Qed.
+
+Lemma nth_copy_into : forall A (src dst : list A) off r (d : A),
+  nth r (copy_into dst off src) d =
+  if (off <=? r) && (r <? off + length src) && (r <? length dst) then nth (r - off) src d else nth r dst d.
+Proof.
+  induction src; intros dst off r d.
+  - simpl. bdestr; auto; lia.
+  - simpl copy_into. rewrite IHsrc. rewrite upd_length, nth_upd. simpl length.
+    bdestr; try lia; auto.
+    + subst. rewrite Nat.sub_diag. reflexivity.
+    + replace (r - off) with (S (r - S off)) by lia. reflexivity.
+Qed.
+
+Lemma map2_length : forall A B C (f : A -> B -> C) la lb,
+  length (map2 f la lb) = Nat.min (length la) (length lb).
+Proof. induction la; destruct lb; simpl; auto. Qed.
+
+Lemma nth_error_map2 : forall A B C (f : A -> B -> C) la lb i,
+  nth_error (map2 f la lb) i =
+  match nth_error la i, nth_error lb i with Some a, Some b => Some (f a b) | _, _ => None end.
+Proof.
+  induction la; destruct lb, i; simpl; auto.
+  destruct (nth_error la i); reflexivity.
+Qed.
+
+Lemma Forall_nth_error : forall A (P : A -> Prop) l,
+  Forall P l <-> (forall i x, nth_error l i = Some x -> P x).
+Proof.
+  intros. rewrite Forall_forall. split; intros H.
+  - intros i x E. apply H. eapply nth_error_In; eauto.
+  - intros x Hin. apply In_nth_error in Hin. destruct Hin as [i E]. eauto.
+Qed.
+
+Lemma zero_range_length : forall n col start, length (zero_range col start n) = length col.
+Proof. induction n; intros; simpl; auto. rewrite IHn. apply upd_length. Qed.
+
+Lemma nth_zero_range : forall n col start r,
+  nth r (zero_range col start n) 0%Z =
+  if (start <=? r) && (r <? start + n) then 0%Z else nth r col 0%Z.
+Proof.
+  induction n; intros col start r.
+  - simpl. bdestr; auto; lia.
+  - simpl zero_range. rewrite IHn, nth_upd.
+    bdestr; try lia; auto.
+    subst. apply nth_overflow. assumption.
+Qed.
+
+(** ** cap_pow2 *)
+Lemma pow2_ge_ge : forall fuel p n, n <= p * Nat.pow 2 fuel -> n <= pow2_ge fuel p n.
+Proof.
+  induction fuel; intros p n H.
+  - simpl in *. lia.
+  - simpl pow2_ge. destruct (Nat.leb_spec n p); auto.
+    apply IHfuel. rewrite Nat.pow_succ_r' in H. lia.
+Qed.
+
+Lemma cap_pow2_ge : forall n, n <= Nat.pow 2 31 -> n <= cap_pow2 n.
+Proof.
+  intros n H. unfold cap_pow2. apply pow2_ge_ge.
+  rewrite (Nat.pow_succ_r' 2 31). lia.
+Qed.
+
+(** ** Column-wise characterisation of [tbl_ok] *)
+Definition col_ok (cap len : nat) (kinds : list ckind) (i : nat) (c : list Z) : Prop :=
+  length c = cap /\ (forall r, len <= r -> nth r c 0%Z = 0%Z) /\
+  (forall k, nth_error kinds i = Some k -> ck_zs k = true -> forall r, nth r c 0%Z = 0%Z).
+
+Lemma tbl_ok_iff : forall t, tbl_ok t <->
+  (t_len t <= t_cap t /\ length (t_ents t) = t_cap t /\ length (t_cols t) = length (t_ids t) /\
+   length (t_kinds t) = length (t_ids t) /\
+   forall i c, nth_error (t_cols t) i = Some c -> col_ok (t_cap t) (t_len t) (t_kinds t) i c).
+Proof.
+  intros t. unfold tbl_ok, tbl_shape, tbl_clean, tbl_zs, col_ok.
+  rewrite !Forall_nth_error. split.
+  - intros ((H1 & H2 & H3 & H4 & H5) & H6 & H7). repeat split; auto.
+    + eapply H5; eauto.
+    + eapply H6; eauto.
+    + intros k Ek Hz r. eapply H7; eauto.
+  - intros (H1 & H2 & H3 & H4 & H5). repeat split; auto.
+    + intros i x E. apply (H5 i x E).
+    + intros i x E. apply (H5 i x E).
+    + intros i k c Ek Hz Ec. destruct (H5 i c Ec) as (_ & _ & H). eauto.
+Qed.
+
+Lemma tbl_ok_intro : forall t,
+  t_len t <= t_cap t -> length (t_ents t) = t_cap t -> length (t_cols t) = length (t_ids t) ->
+  length (t_kinds t) = length (t_ids t) ->
+  (forall i c, nth_error (t_cols t) i = Some c -> col_ok (t_cap t) (t_len t) (t_kinds t) i c) ->
+  tbl_ok t.
+Proof. intros. apply tbl_ok_iff. auto. Qed.
+
+Lemma tbl_ok_elim : forall t, tbl_ok t ->
+  t_len t <= t_cap t /\ length (t_ents t) = t_cap t /\ length (t_cols t) = length (t_ids t) /\
+  length (t_kinds t) = length (t_ids t) /\
+  forall i c, nth_error (t_cols t) i = Some c -> col_ok (t_cap t) (t_len t) (t_kinds t) i c.
+Proof. intros. apply tbl_ok_iff. auto. Qed.
+
+Lemma cell_some : forall t ci r c, nth_error (t_cols t) ci = Some c -> cell t ci r = nth r c 0%Z.
+Proof. intros t ci r c H. unfold cell. rewrite (nth_error_nth (t_cols t) ci [] H). reflexivity. Qed.
+
+Lemma cell_none : forall t ci r, nth_error (t_cols t) ci = None -> cell t ci r = 0%Z.
+Proof.
+  intros t ci r H. unfold cell. apply nth_error_None in H. rewrite (nth_overflow (t_cols t) [] H).
+  destruct r; reflexivity.
+Qed.
+
+Lemma cell_clean : forall t ci r, tbl_ok t -> t_len t <= r -> cell t ci r = 0%Z.
+Proof.
+  intros t ci r H Hr. apply tbl_ok_elim in H. destruct H as (_ & _ & _ & _ & H5).
+  destruct (nth_error (t_cols t) ci) eqn:E.
+  - rewrite (cell_some _ _ _ _ E). destruct (H5 _ _ E) as (_ & C & _). auto.
+  - apply cell_none. assumption.
+Qed.
+
 Theorem new_table_ok : forall aid a kinds cap targets rels,
   length kinds = length (a_comps a) -> tbl_ok (new_table aid a kinds cap targets rels).
-Admitted.
+Proof.
+  intros. apply tbl_ok_intro; unfold new_table; cbn.
+  - lia.
+  - apply repeat_length.
+  - apply map_length.
+  - assumption.
+  - intros i c E. rewrite nth_error_map in E. destruct (nth_error (a_comps a) i); inversion E; subst.
+    split; [apply repeat_length|]. split; intros; apply nth_repeat.
+Qed.
 
 (** adjustCapacity (growth and shrinking): rows below len are preserved, the rest is zero. *)
 Theorem tbl_adjust_ok : forall t c, tbl_ok t -> t_len t <= c -> tbl_ok (tbl_adjust t c).
-Admitted.
+Proof.
+  intros t c H Hc. apply tbl_ok_elim in H. destruct H as (H1 & H2 & H3 & H4 & H5).
+  apply tbl_ok_intro; unfold tbl_adjust; cbn.
+  - assumption.
+  - apply resize_length; lia.
+  - rewrite map_length. assumption.
+  - assumption.
+  - intros i col E. rewrite nth_error_map in E.
+    destruct (nth_error (t_cols t) i) eqn:E0; inversion E; subst.
+    destruct (H5 _ _ E0) as (L & C & Z). split; [|split].
+    + apply resize_length; lia.
+    + intros r Hr. rewrite nth_resize by lia. bdestr; auto; lia.
+    + intros k Ek Hz r. rewrite nth_resize by lia. bdestr; eauto.
+Qed.
+
 Theorem tbl_adjust_rows : forall t c ci r, tbl_ok t -> t_len t <= c -> r < t_len t ->
   cell (tbl_adjust t c) ci r = cell t ci r /\ row_ent (tbl_adjust t c) r = row_ent t r.
-Admitted.
+Proof.
+  intros t c ci r H Hc Hr. apply tbl_ok_elim in H. destruct H as (H1 & H2 & H3 & H4 & H5). split.
+  - destruct (nth_error (t_cols t) ci) eqn:E.
+    + rewrite (cell_some t _ _ _ E). destruct (H5 _ _ E) as (L & _).
+      erewrite cell_some.
+      2:{ unfold tbl_adjust; cbn. rewrite nth_error_map, E. reflexivity. }
+      rewrite nth_resize by lia. bdestr; auto; lia.
+    + rewrite (cell_none t _ _ E). apply cell_none.
+      unfold tbl_adjust; cbn. rewrite nth_error_map, E. reflexivity.
+  - unfold row_ent, tbl_adjust; cbn. rewrite nth_resize by lia. bdestr; auto; lia.
+Qed.
+
 Theorem tbl_adjust_len : forall t c, t_len (tbl_adjust t c) = t_len t /\ t_cap (tbl_adjust t c) = c.
-Admitted.
+Proof. intros. split; reflexivity. Qed.
+
+(** ** Growth, alloc, add *)
+Lemma set_len_ok : forall t l, tbl_ok t -> t_len t <= l -> l <= t_cap t -> tbl_ok (t <| t_len := l |>).
+Proof.
+  intros t l H Hl Hc. apply tbl_ok_elim in H. destruct H as (H1 & H2 & H3 & H4 & H5).
+  apply tbl_ok_intro; cbn; auto.
+  intros i c E. destruct (H5 _ _ E) as (L & C & Z). split; [|split]; auto.
+  intros; apply C; lia.
+Qed.
+
+Lemma set_ents_ok : forall t es, tbl_ok t -> length es = t_cap t -> tbl_ok (t <| t_ents := es |>).
+Proof.
+  intros t es H Hl. apply tbl_ok_elim in H. destruct H as (H1 & H2 & H3 & H4 & H5).
+  apply tbl_ok_intro; cbn; auto.
+Qed.
+
+Lemma tbl_extend_facts : forall t n, tbl_ok t -> t_len t + n <= Nat.pow 2 31 ->
+  tbl_ok (tbl_extend t n) /\ t_len (tbl_extend t n) = t_len t /\ t_len t + n <= t_cap (tbl_extend t n) /\
+  (forall ci r, r < t_len t -> cell (tbl_extend t n) ci r = cell t ci r) /\
+  (forall r, r < t_len t -> row_ent (tbl_extend t n) r = row_ent t r) /\
+  t_ids (tbl_extend t n) = t_ids t /\ t_kinds (tbl_extend t n) = t_kinds t /\
+  t_arch (tbl_extend t n) = t_arch t /\ t_rels (tbl_extend t n) = t_rels t /\
+  t_targets (tbl_extend t n) = t_targets t /\ t_free (tbl_extend t n) = t_free t.
+Proof.
+  intros t n H Hn. unfold tbl_extend. destruct (Nat.leb_spec (t_len t + n) (t_cap t)).
+  - split; [assumption|]. repeat split; auto.
+  - pose proof (cap_pow2_ge _ Hn) as Hc.
+    set (c := cap_pow2 (t_len t + n)) in *. clearbody c.
+    assert (t_len t <= c) by lia.
+    split; [apply tbl_adjust_ok; auto|].
+    split; [reflexivity|]. split; [exact Hc|].
+    split; [intros ci r Hr; apply (proj1 (tbl_adjust_rows t c ci r H H1 Hr))|].
+    split; [intros r Hr; apply (proj2 (tbl_adjust_rows t c 0 r H H1 Hr))|].
+    repeat split; reflexivity.
+Qed.
+
+Lemma tbl_alloc_facts : forall t n, tbl_ok t -> t_len t + n <= Nat.pow 2 31 ->
+  tbl_ok (tbl_alloc t n) /\ t_len (tbl_alloc t n) = t_len t + n /\ t_len t + n <= t_cap (tbl_alloc t n) /\
+  (forall ci r, t_len t <= r -> cell (tbl_alloc t n) ci r = 0%Z) /\
+  (forall ci r, r < t_len t -> cell (tbl_alloc t n) ci r = cell t ci r) /\
+  (forall r, r < t_len t -> row_ent (tbl_alloc t n) r = row_ent t r) /\
+  t_ids (tbl_alloc t n) = t_ids t /\ t_kinds (tbl_alloc t n) = t_kinds t /\
+  t_arch (tbl_alloc t n) = t_arch t /\ t_rels (tbl_alloc t n) = t_rels t /\
+  t_targets (tbl_alloc t n) = t_targets t /\ t_free (tbl_alloc t n) = t_free t /\
+  length (t_ents (tbl_alloc t n)) = t_cap (tbl_alloc t n) /\
+  length (t_cols (tbl_alloc t n)) = length (t_ids t).
+Proof.
+  intros t n H Hn. unfold tbl_alloc. cbv zeta.
+  destruct (tbl_extend_facts t n H Hn) as (O & L & C & Hc & He & F1 & F2 & F3 & F4 & F5 & F6).
+  set (t1 := tbl_extend t n) in *. clearbody t1.
+  split; [apply set_len_ok; auto; lia|].
+  split; [cbn; lia|]. split; [exact C|].
+  split; [intros ci r Hr; change (cell t1 ci r = 0%Z); apply cell_clean; auto; lia|].
+  split; [exact Hc|]. split; [exact He|].
+  apply tbl_ok_elim in O. destruct O as (_ & O2 & O3 & _).
+  cbn. repeat split; auto. congruence.
+Qed.
 
 (** Add: the new row is the old len, holds the entity, all its cells read as zero (C11: a component
     added without an initial value is zero whatever occupied the storage before); old rows unchanged. *)
 Theorem tbl_add_ok : forall t e, tbl_ok t -> t_len t < Nat.pow 2 31 -> tbl_ok (snd (tbl_add t e)).
-Admitted.
+Proof.
+  intros t e H Hn. assert (Hn' : t_len t + 1 <= Nat.pow 2 31) by lia.
+  destruct (tbl_alloc_facts t 1 H Hn') as (O & _ & _ & _ & _ & _ & _ & _ & _ & _ & _ & _ & Le & _).
+  unfold tbl_add. simpl snd. apply set_ents_ok; auto.
+  rewrite upd_length. assumption.
+Qed.
+
 Theorem tbl_add_spec : forall t e, tbl_ok t -> t_len t < Nat.pow 2 31 ->
   let '(idx, t') := tbl_add t e in
   idx = t_len t /\ t_len t' = S (t_len t) /\ row_ent t' idx = e /\
@@ -50,22 +332,106 @@ Theorem tbl_add_spec : forall t e, tbl_ok t -> t_len t < Nat.pow 2 31 ->
   (forall r, r < t_len t -> row_ent t' r = row_ent t r) /\
   t_ids t' = t_ids t /\ t_kinds t' = t_kinds t /\ t_arch t' = t_arch t /\ t_rels t' = t_rels t /\
   t_targets t' = t_targets t /\ t_free t' = t_free t.
-Admitted.
+Proof.
+  intros t e H Hn. assert (Hn' : t_len t + 1 <= Nat.pow 2 31) by lia.
+  destruct (tbl_alloc_facts t 1 H Hn') as (O & L & C & Z & Hc & He & F1 & F2 & F3 & F4 & F5 & F6 & Le & _).
+  unfold tbl_add. cbv zeta. set (t1 := tbl_alloc t 1) in *. clearbody t1.
+  split; [reflexivity|]. split; [cbn; lia|].
+  split; [unfold row_ent; cbn; apply nth_upd_eq; lia|].
+  split; [intros ci; change (cell t1 ci (t_len t) = 0%Z); apply Z; lia|].
+  split; [exact Hc|].
+  split; [intros r Hr; unfold row_ent; cbn; rewrite nth_upd_neq by lia; apply He; assumption|].
+  cbn. repeat split; assumption.
+Qed.
 
 (** Alloc n rows: all new rows read as zero. *)
 Theorem tbl_alloc_ok : forall t n, tbl_ok t -> t_len t + n <= Nat.pow 2 31 -> tbl_ok (tbl_alloc t n).
-Admitted.
+Proof. intros t n H Hn. apply (tbl_alloc_facts t n H Hn). Qed.
+
 Theorem tbl_alloc_spec : forall t n, tbl_ok t -> t_len t + n <= Nat.pow 2 31 ->
   t_len (tbl_alloc t n) = t_len t + n /\
   (forall ci r, t_len t <= r -> cell (tbl_alloc t n) ci r = 0%Z) /\
   (forall ci r, r < t_len t -> cell (tbl_alloc t n) ci r = cell t ci r) /\
   (forall r, r < t_len t -> row_ent (tbl_alloc t n) r = row_ent t r).
-Admitted.
+Proof.
+  intros t n H Hn.
+  destruct (tbl_alloc_facts t n H Hn) as (O & L & C & Z & Hc & He & _). auto.
+Qed.
+
+(** ** Remove *)
+Lemma swap_length : forall A (sw : bool) index last (l : list A),
+  length (if sw then match nth_error l last with Some v => upd index v l | None => l end else l) = length l.
+Proof.
+  intros. destruct sw; auto. destruct (nth_error l last); auto using upd_length.
+Qed.
+
+Lemma swap_nth : forall A (sw : bool) index last (l : list A) d r,
+  last < length l -> index < length l ->
+  nth r (if sw then match nth_error l last with Some v => upd index v l | None => l end else l) d =
+  if sw && (index =? r) then nth last l d else nth r l d.
+Proof.
+  intros A sw index last l d r Hl Hi. destruct sw; simpl; auto.
+  rewrite (nth_error_nth' l d Hl). rewrite nth_upd. bdestr; auto; lia.
+Qed.
+
+Lemma tbl_remove_col : forall t index ci,
+  nth_error (t_cols (snd (tbl_remove t index))) ci =
+  match nth_error (t_kinds t) ci, nth_error (t_cols t) ci with
+  | Some k, Some col =>
+      Some (col_zero k (if negb (index =? t_len t - 1)
+                        then match nth_error col (t_len t - 1) with Some v => upd index v col | None => col end
+                        else col) (t_len t - 1))
+  | _, _ => None
+  end.
+Proof. intros. unfold tbl_remove. cbn. rewrite nth_error_map2. reflexivity. Qed.
+
+Lemma tbl_remove_cell : forall t index ci r, tbl_ok t -> index < t_len t ->
+  cell (snd (tbl_remove t index)) ci r =
+  if r =? t_len t - 1 then 0%Z else if r =? index then cell t ci (t_len t - 1) else cell t ci r.
+Proof.
+  intros t index ci r H Hi. apply tbl_ok_elim in H. destruct H as (H1 & H2 & H3 & H4 & H5).
+  pose proof (tbl_remove_col t index ci) as E.
+  destruct (nth_error (t_cols t) ci) as [col|] eqn:Ec.
+  - destruct (nth_error (t_kinds t) ci) as [k|] eqn:Ek.
+    2:{ apply nth_error_None in Ek. assert (ci < length (t_cols t)) by (apply nth_error_Some; congruence). lia. }
+    rewrite (cell_some _ _ _ _ E). rewrite !(cell_some t _ _ _ Ec).
+    destruct (H5 _ _ Ec) as (L & C & Zs).
+    unfold col_zero. destruct (ck_zs k) eqn:Hz.
+    + rewrite swap_nth by lia. rewrite !(Zs k Ek Hz). bdestr; reflexivity.
+    + rewrite nth_upd, swap_length, swap_nth by lia. bdestr; auto; lia.
+  - assert (E' : nth_error (t_cols (snd (tbl_remove t index))) ci = None).
+    { rewrite E. destruct (nth_error (t_kinds t) ci); reflexivity. }
+    rewrite (cell_none _ _ _ E'). rewrite !(cell_none t _ _ Ec). bdestr; reflexivity.
+Qed.
 
 (** Remove (swap-remove): row [index] receives the old last row, the vacated last row is zeroed,
     all other rows are unchanged. *)
 Theorem tbl_remove_ok : forall t index, tbl_ok t -> index < t_len t -> tbl_ok (snd (tbl_remove t index)).
-Admitted.
+Proof.
+  intros t index H Hi. pose proof (tbl_remove_col t index) as E.
+  apply tbl_ok_elim in H. destruct H as (H1 & H2 & H3 & H4 & H5).
+  apply tbl_ok_intro.
+  - unfold tbl_remove; cbn. lia.
+  - unfold tbl_remove; cbn. rewrite swap_length. assumption.
+  - unfold tbl_remove; cbn. rewrite map2_length. lia.
+  - unfold tbl_remove; cbn. assumption.
+  - intros i c Ei. rewrite E in Ei.
+    destruct (nth_error (t_kinds t) i) as [k|] eqn:Ek; [|discriminate].
+    destruct (nth_error (t_cols t) i) as [col|] eqn:Ec; [|discriminate].
+    inversion Ei; subst c; clear Ei.
+    destruct (H5 _ _ Ec) as (L & C & Zs).
+    change (t_cap (snd (tbl_remove t index))) with (t_cap t).
+    change (t_len (snd (tbl_remove t index))) with (t_len t - 1).
+    change (t_kinds (snd (tbl_remove t index))) with (t_kinds t).
+    unfold col_zero. split; [|split].
+    + destruct (ck_zs k); rewrite ?upd_length, swap_length; assumption.
+    + intros r Hr. destruct (ck_zs k) eqn:Hz.
+      * rewrite swap_nth by lia. rewrite !(Zs k Ek Hz). bdestr; reflexivity.
+      * rewrite nth_upd, swap_length, swap_nth by lia. bdestr; auto; try lia; apply C; lia.
+    + intros k' Ek' Hz r. rewrite Ek in Ek'. inversion Ek'; subst k'. rewrite Hz.
+      rewrite swap_nth by lia. rewrite !(Zs k Ek Hz). bdestr; reflexivity.
+Qed.
+
 Theorem tbl_remove_spec : forall t index, tbl_ok t -> index < t_len t ->
   let '(swapped, t') := tbl_remove t index in
   swapped = negb (Nat.eqb index (t_len t - 1)) /\ t_len t' = t_len t - 1 /\
@@ -75,14 +441,65 @@ Theorem tbl_remove_spec : forall t index, tbl_ok t -> index < t_len t ->
   (forall r, r < t_len t' -> r <> index -> row_ent t' r = row_ent t r) /\
   t_ids t' = t_ids t /\ t_kinds t' = t_kinds t /\ t_arch t' = t_arch t /\ t_rels t' = t_rels t /\
   t_targets t' = t_targets t /\ t_free t' = t_free t /\ t_cap t' = t_cap t.
-Admitted.
+Proof.
+  intros t index H Hi.
+  pose proof (fun ci r => tbl_remove_cell t index ci r H Hi) as Hc.
+  apply tbl_ok_elim in H. destruct H as (H1 & H2 & H3 & H4 & H5).
+  destruct (tbl_remove t index) as [swapped t'] eqn:E.
+  assert (Es : swapped = fst (tbl_remove t index)) by (rewrite E; reflexivity).
+  assert (Et : t' = snd (tbl_remove t index)) by (rewrite E; reflexivity).
+  clear E. subst swapped t'.
+  split; [reflexivity|]. split; [reflexivity|].
+  change (t_len (snd (tbl_remove t index))) with (t_len t - 1).
+  split; [intros ci Hl; rewrite Hc; bdestr; auto; lia|].
+  split; [intros Hl; unfold row_ent, tbl_remove; cbn; rewrite swap_nth by lia; bdestr; auto; lia|].
+  split; [intros ci r Hl Hne; rewrite Hc; bdestr; auto; lia|].
+  split; [intros r Hl Hne; unfold row_ent, tbl_remove; cbn; rewrite swap_nth by lia; bdestr; auto; lia|].
+  repeat split; reflexivity.
+Qed.
+
+(** ** Reset *)
+Lemma col_reset_length : forall k col len, length (col_reset k col len) = length col.
+Proof.
+  intros. unfold col_reset. destruct (len =? 0); auto.
+  destruct (_ && _); [destruct (ck_zs k)|]; auto using zero_range_length, repeat_length.
+Qed.
+
+Lemma col_reset_zero : forall k col len,
+  (forall r, len <= r -> nth r col 0%Z = 0%Z) ->
+  (ck_zs k = true -> forall r, nth r col 0%Z = 0%Z) ->
+  forall r, nth r (col_reset k col len) 0%Z = 0%Z.
+Proof.
+  intros k col len C Z r. unfold col_reset. destruct (Nat.eqb_spec len 0).
+  - apply C. lia.
+  - destruct (_ && _).
+    + destruct (ck_zs k); auto. rewrite nth_zero_range. bdestr; auto. apply C. lia.
+    + apply nth_repeat.
+Qed.
 
 (** Reset: empty, and every cell up to the capacity is zero (both zeroing strategies). *)
 Theorem tbl_reset_ok : forall t, tbl_ok t -> tbl_ok (tbl_reset t).
-Admitted.
+Proof.
+  intros t H. apply tbl_ok_elim in H. destruct H as (H1 & H2 & H3 & H4 & H5).
+  apply tbl_ok_intro; unfold tbl_reset; cbn; auto.
+  - lia.
+  - rewrite map2_length. lia.
+  - intros i c E. rewrite nth_error_map2 in E.
+    destruct (nth_error (t_kinds t) i) as [k|] eqn:Ek; [|discriminate].
+    destruct (nth_error (t_cols t) i) as [col|] eqn:Ec; [|discriminate].
+    inversion E; subst c; clear E.
+    destruct (H5 _ _ Ec) as (L & C & Zs).
+    split; [rewrite col_reset_length; assumption|].
+    split; intros; apply col_reset_zero; auto; apply Zs; auto.
+Qed.
+
 Theorem tbl_reset_spec : forall t, tbl_ok t ->
   t_len (tbl_reset t) = 0 /\ (forall ci r, cell (tbl_reset t) ci r = 0%Z) /\ t_cap (tbl_reset t) = t_cap t.
-Admitted.
+Proof.
+  intros t H. split; [reflexivity|]. split; [|reflexivity].
+  intros ci r. apply cell_clean; [apply tbl_reset_ok; assumption|].
+  change (t_len (tbl_reset t)) with 0. lia.
+Qed.
 
 (** The two zeroing strategies of column.Reset agree on clean columns (so [isTrivial] and the
     64-row threshold never affect values). *)
@@ -90,13 +507,63 @@ Theorem col_reset_paths_agree : forall k1 k2 col len,
   ck_zs k1 = ck_zs k2 -> (forall r, len <= r -> nth r col 0%Z = 0%Z) -> len <= length col ->
   (ck_zs k1 = true -> forall r, nth r col 0%Z = 0%Z) ->
   forall r, nth r (col_reset k1 col len) 0%Z = nth r (col_reset k2 col len) 0%Z.
-Admitted.
+Proof.
+  intros k1 k2 col len Hk C Hl Z r.
+  rewrite !col_reset_zero; auto. rewrite <- Hk. assumption.
+Qed.
+
+(** ** AddAll *)
+Lemma tbl_add_all_col : forall dst src count ci,
+  nth_error (t_cols (tbl_add_all dst src count)) ci =
+  match nth_error (t_cols (tbl_alloc dst count)) ci, nth_error (t_cols src) ci with
+  | Some dc, Some sc => Some (copy_into dc (t_len (tbl_alloc dst count) - count) (firstn count sc))
+  | _, _ => None
+  end.
+Proof. intros. unfold tbl_add_all. cbn. rewrite nth_error_map2. reflexivity. Qed.
+
+Opaque tbl_alloc.
+
+Lemma firstn_length_le' : forall A n (l : list A), length (firstn n l) <= n.
+Proof. intros. rewrite firstn_length. lia. Qed.
 
 (** AddAll: the first [count] rows of [src] are appended to [dst]. *)
 Theorem tbl_add_all_ok : forall dst src count, tbl_ok dst -> tbl_ok src ->
   t_kinds dst = t_kinds src -> t_ids dst = t_ids src -> count <= t_len src ->
   t_len dst + count <= Nat.pow 2 31 -> tbl_ok (tbl_add_all dst src count).
-Admitted.
+Proof.
+  intros dst src count Hd Hs Hk Hid Hc Hn.
+  pose proof (tbl_add_all_col dst src count) as E.
+  destruct (tbl_alloc_facts dst count Hd Hn) as (O & L & C & Z0 & _ & _ & F1 & F2 & _ & _ & _ & _ & Le & Lc).
+  apply tbl_ok_elim in O. destruct O as (O1 & O2 & O3 & O4 & O5).
+  apply tbl_ok_elim in Hs. destruct Hs as (S1 & S2 & S3 & S4 & S5).
+  apply tbl_ok_intro.
+  - unfold tbl_add_all; cbn. assumption.
+  - unfold tbl_add_all; cbn. rewrite copy_into_length. assumption.
+  - unfold tbl_add_all; cbn. rewrite map2_length. rewrite O3, S3, F1, Hid. lia.
+  - unfold tbl_add_all; cbn. assumption.
+  - intros i c Ei. rewrite E in Ei.
+    change (t_cap (tbl_add_all dst src count)) with (t_cap (tbl_alloc dst count)).
+    change (t_len (tbl_add_all dst src count)) with (t_len (tbl_alloc dst count)).
+    change (t_kinds (tbl_add_all dst src count)) with (t_kinds (tbl_alloc dst count)).
+    set (d := tbl_alloc dst count) in *. clearbody d.
+    destruct (nth_error (t_cols d) i) as [dc|] eqn:Edc; [|discriminate].
+    destruct (nth_error (t_cols src) i) as [sc|] eqn:Esc; [|discriminate].
+    inversion Ei; subst c; clear Ei.
+    replace (t_len d - count) with (t_len dst) by lia.
+    destruct (O5 _ _ Edc) as (Ld & Cd & Zd). destruct (S5 _ _ Esc) as (Lsc & Csc & Zsc).
+    pose proof (firstn_length_le' _ count sc) as Hf.
+    split; [|split].
+    + rewrite copy_into_length. assumption.
+    + intros r Hr. rewrite nth_copy_into. bdestr; try lia; apply Cd; assumption.
+    + intros k Ek Hz r. rewrite nth_copy_into.
+      destruct (_ && _) eqn:Hb.
+      * apply Bool.andb_true_iff in Hb. destruct Hb as (Hb & _).
+        apply Bool.andb_true_iff in Hb. destruct Hb as (Hb1 & Hb2).
+        apply Nat.leb_le in Hb1. apply Nat.ltb_lt in Hb2.
+        rewrite nth_firstn' by lia. apply (Zsc k); auto. congruence.
+      * apply (Zd k); auto.
+Qed.
+
 Theorem tbl_add_all_spec : forall dst src count, tbl_ok dst -> tbl_ok src ->
   t_kinds dst = t_kinds src -> t_ids dst = t_ids src -> count <= t_len src ->
   t_len dst + count <= Nat.pow 2 31 ->
@@ -106,20 +573,186 @@ Theorem tbl_add_all_spec : forall dst src count, tbl_ok dst -> tbl_ok src ->
   (forall r, r < t_len dst -> row_ent d r = row_ent dst r) /\
   (forall ci i, i < count -> ci < length (t_ids dst) -> cell d ci (t_len dst + i) = cell src ci i) /\
   (forall i, i < count -> row_ent d (t_len dst + i) = row_ent src i).
-Admitted.
+Proof.
+  intros dst src count Hd Hs Hk Hid Hc Hn. cbv zeta.
+  pose proof (tbl_add_all_col dst src count) as E.
+  destruct (tbl_alloc_facts dst count Hd Hn) as (O & L & C & Z0 & Hcell & Hent & F1 & F2 & _ & _ & _ & _ & Le & Lc).
+  apply tbl_ok_elim in O. destruct O as (O1 & O2 & O3 & O4 & O5).
+  apply tbl_ok_elim in Hs. destruct Hs as (S1 & S2 & S3 & S4 & S5).
+  assert (Hstart : t_len (tbl_alloc dst count) - count = t_len dst) by lia.
+  assert (Hidl : length (t_ids dst) = length (t_ids src)) by congruence.
+  rewrite Hstart in E.
+  split; [exact L|].
+  split; [|split; [|split]].
+  - intros ci r Hr. rewrite <- Hcell by assumption.
+    specialize (E ci).
+    destruct (nth_error (t_cols (tbl_alloc dst count)) ci) as [dc|] eqn:Edc.
+    + destruct (nth_error (t_cols src) ci) as [sc|] eqn:Esc.
+      * rewrite (cell_some _ _ _ _ E), (cell_some _ _ _ _ Edc).
+        rewrite nth_copy_into. bdestr; auto; lia.
+      * apply nth_error_None in Esc.
+        assert (ci < length (t_cols (tbl_alloc dst count))) by (apply nth_error_Some; congruence). lia.
+    + rewrite (cell_none _ _ _ E), (cell_none _ _ _ Edc). reflexivity.
+  - intros r Hr. rewrite <- Hent by assumption.
+    unfold row_ent, tbl_add_all; cbn. rewrite Hstart.
+    rewrite nth_copy_into. bdestr; auto; lia.
+  - intros ci i Hi Hci. specialize (E ci).
+    destruct (nth_error (t_cols (tbl_alloc dst count)) ci) as [dc|] eqn:Edc.
+    2:{ apply nth_error_None in Edc. lia. }
+    destruct (nth_error (t_cols src) ci) as [sc|] eqn:Esc.
+    2:{ apply nth_error_None in Esc. lia. }
+    rewrite (cell_some _ _ _ _ E), (cell_some _ _ _ _ Esc).
+    destruct (O5 _ _ Edc) as (Ld & _). destruct (S5 _ _ Esc) as (Lsc & _).
+    rewrite nth_copy_into. rewrite firstn_length_le by lia.
+    bdestr; try lia. rewrite nth_firstn' by lia. f_equal. lia.
+  - intros i Hi. unfold row_ent, tbl_add_all; cbn. rewrite Hstart.
+    rewrite nth_copy_into. rewrite firstn_length_le by lia.
+    bdestr; try lia. rewrite nth_firstn' by lia. f_equal. lia.
+Qed.
+
+Transparent tbl_alloc.
+
+(** ** Cell writes *)
+Lemma col_upd_ok : forall cap len kinds i col row v,
+  col_ok cap len kinds i col -> row < len ->
+  (forall k, nth_error kinds i = Some k -> ck_zs k = false) ->
+  col_ok cap len kinds i (upd row v col).
+Proof.
+  intros cap len kinds i col row v (L & C & Zs) Hr Hk. split; [|split].
+  - rewrite upd_length. assumption.
+  - intros r Hl. rewrite nth_upd_neq by lia. auto.
+  - intros k Ek Hz. rewrite (Hk k Ek) in Hz. discriminate.
+Qed.
+
+Lemma updf_col_ok : forall t ci f,
+  tbl_ok t ->
+  (forall col, nth_error (t_cols t) ci = Some col -> col_ok (t_cap t) (t_len t) (t_kinds t) ci col ->
+               col_ok (t_cap t) (t_len t) (t_kinds t) ci (f col)) ->
+  tbl_ok (t <| t_cols ::= updf ci f |>).
+Proof.
+  intros t ci f H Hf. apply tbl_ok_elim in H. destruct H as (H1 & H2 & H3 & H4 & H5).
+  apply tbl_ok_intro; cbn; auto.
+  - rewrite updf_length. assumption.
+  - intros i c E. rewrite nth_error_updf in E. destruct (Nat.eqb_spec ci i).
+    + subst i. destruct (nth_error (t_cols t) ci) as [col|] eqn:Ec; [|discriminate].
+      inversion E; subst c. apply Hf; auto.
+    + apply H5. assumption.
+Qed.
 
 (** Writes and copies inside the used rows keep the table clean. *)
 Theorem col_write_ok : forall t ci row v k, tbl_ok t -> row < t_len t ->
   nth_error (t_kinds t) ci = Some k -> ck_zs k = false ->
   tbl_ok (t <| t_cols ::= updf ci (upd row v) |>).
-Admitted.
+Proof.
+  intros t ci row v k H Hr Ek Hz. apply updf_col_ok; auto.
+  intros col _ Hc. apply col_upd_ok; auto.
+  intros k' Ek'. congruence.
+Qed.
+
 Theorem col_set_ok : forall t ci row k src j, tbl_ok t -> row < t_len t ->
   nth_error (t_kinds t) ci = Some k ->
   (ck_zs k = true -> forall r, nth r src 0%Z = 0%Z) ->
   tbl_ok (t <| t_cols ::= updf ci (fun dst => col_set k dst row src j) |>).
-Admitted.
+Proof.
+  intros t ci row k src j H Hr Ek Hsrc. apply updf_col_ok; auto.
+  intros col _ Hc. unfold col_set. destruct (ck_zs k) eqn:Hz; auto.
+  destruct (nth_error src j); auto.
+  apply col_upd_ok; auto. intros k' Ek'. congruence.
+Qed.
+
+(** ** tableIDs.Remove *)
+Lemma index_of_none : forall id l, index_of id l = None -> ~ In id l.
+Proof.
+  induction l; simpl; intros H; auto.
+  destruct (Nat.eqb_spec a id); [discriminate|].
+  destruct (index_of id l); [discriminate|].
+  intros [Ha|Hin]; auto. apply IHl; auto.
+Qed.
+
+Lemma index_of_split : forall id l i, index_of id l = Some i ->
+  exists l1 l2, l = l1 ++ id :: l2 /\ length l1 = i.
+Proof.
+  induction l; simpl; intros i H; [discriminate|].
+  destruct (Nat.eqb_spec a id).
+  - inversion H; subst. exists [], l. auto.
+  - destruct (index_of id l) eqn:E; [|discriminate]. inversion H; subst.
+    destruct (IHl n0 eq_refl) as (l1 & l2 & El & Hl). exists (a :: l1), l2. subst l. simpl. auto.
+Qed.
+
+Lemma upd_app : forall A (l1 l2 : list A) x y, upd (length l1) x (l1 ++ y :: l2) = l1 ++ x :: l2.
+Proof. induction l1; intros; simpl; auto. rewrite IHl1. reflexivity. Qed.
+
+Lemma firstn_length_app : forall A (a b : list A), firstn (length a) (a ++ b) = a.
+Proof. induction a; intros; simpl; auto. rewrite IHa. reflexivity. Qed.
+
+Lemma perm_remove_spec : forall (id : nat) l rest res, NoDup l ->
+  Permutation l (id :: rest) -> Permutation res rest ->
+  NoDup res /\ (forall x, In x res <-> (In x l /\ x <> id)).
+Proof.
+  intros id l rest res Hnd Hp Hr.
+  assert (Hnd' : NoDup (id :: rest)) by (eapply Permutation_NoDup; eauto).
+  inversion Hnd' as [|? ? Hni Hndr]; subst.
+  split.
+  - eapply Permutation_NoDup; [apply Permutation_sym; eassumption|assumption].
+  - intros x. split.
+    + intros Hin. assert (Hx : In x rest) by (eapply Permutation_in; eauto). split.
+      * eapply Permutation_in; [apply Permutation_sym; eassumption|]. right. assumption.
+      * intros ->. contradiction.
+    + intros (Hin & Hne). assert (Hx : In x (id :: rest)) by (eapply Permutation_in; eauto).
+      destruct Hx as [Hx|Hx]; [congruence|].
+      eapply Permutation_in; [apply Permutation_sym; eassumption|assumption].
+Qed.
 
 (** tableIDs.Remove on a duplicate-free list removes exactly that ID (order changes by one swap). *)
 Theorem tids_remove_spec : forall id l, NoDup l ->
   NoDup (tids_remove id l) /\ (forall x, In x (tids_remove id l) <-> (In x l /\ x <> id)).
-Admitted.
+Proof.
+  intros id l Hnd. unfold tids_remove. destruct (index_of id l) as [i|] eqn:E.
+  - destruct (index_of_split _ _ _ E) as (l1 & l2 & El & Hi). cbv zeta.
+    destruct (exists_last (l := id :: l2)) as (m & x & Em); [discriminate|].
+    destruct m as [|y m].
+    + (* id is the last element *)
+      simpl in Em. inversion Em; subst x l2. subst l. clear Em.
+      replace (length (l1 ++ [id]) - 1) with (length l1) by (rewrite app_length; simpl; lia).
+      rewrite Hi, Nat.eqb_refl. subst i. rewrite firstn_length_app.
+      apply perm_remove_spec with (rest := l1); auto.
+      apply Permutation_sym, Permutation_cons_append.
+    + simpl in Em. inversion Em; subst y l2. subst l. clear Em.
+      replace (l1 ++ id :: m ++ [x]) with ((l1 ++ id :: m) ++ [x]) in * by (rewrite <- app_assoc; reflexivity).
+      replace (length ((l1 ++ id :: m) ++ [x]) - 1) with (length (l1 ++ id :: m))
+        by (rewrite (app_length (l1 ++ id :: m)); simpl; lia).
+      destruct (Nat.eqb_spec i (length (l1 ++ id :: m))) as [Heq|Hne].
+      { rewrite app_length in Heq. simpl in Heq. lia. }
+      rewrite nth_error_app2 by lia. rewrite Nat.sub_diag. simpl nth_error.
+      subst i. rewrite <- app_assoc. simpl app. rewrite upd_app.
+      replace (l1 ++ x :: m ++ [x]) with ((l1 ++ x :: m) ++ [x]) by (rewrite <- app_assoc; reflexivity).
+      replace (length (l1 ++ id :: m)) with (length (l1 ++ x :: m)) by (rewrite !app_length; reflexivity).
+      rewrite firstn_length_app.
+      apply perm_remove_spec with (rest := x :: l1 ++ m).
+      * rewrite <- app_assoc in Hnd. exact Hnd.
+      * eapply Permutation_trans; [apply Permutation_sym, Permutation_middle|].
+        apply perm_skip. rewrite app_assoc. apply Permutation_sym, Permutation_cons_append.
+      * apply Permutation_sym, Permutation_middle.
+  - apply index_of_none in E. split; auto.
+    intros x. split; [|tauto]. intros Hin. split; auto. intros ->. contradiction.
+Qed.
+
+(** ** Assumption audit *)
+Print Assumptions new_table_ok.
+Print Assumptions tbl_adjust_ok.
+Print Assumptions tbl_adjust_rows.
+Print Assumptions tbl_adjust_len.
+Print Assumptions tbl_add_ok.
+Print Assumptions tbl_add_spec.
+Print Assumptions tbl_alloc_ok.
+Print Assumptions tbl_alloc_spec.
+Print Assumptions tbl_remove_ok.
+Print Assumptions tbl_remove_spec.
+Print Assumptions tbl_reset_ok.
+Print Assumptions tbl_reset_spec.
+Print Assumptions col_reset_paths_agree.
+Print Assumptions tbl_add_all_ok.
+Print Assumptions tbl_add_all_spec.
+Print Assumptions col_write_ok.
+Print Assumptions col_set_ok.
+Print Assumptions tids_remove_spec.
